@@ -45,6 +45,10 @@ pub fn maybe_gen_extract(rng: &mut Rng, _tier: Tier, idx: u64) -> Option<Case> {
         "d3/f.dlt".into(),
         "e.dlt".into(),
         "d1/./b.dlt".into(),
+        // escapes hidden behind a leading "./"
+        "./../evil.dlt".into(),
+        "./d1/../../evil.dlt".into(),
+        "./ok.dlt".into(),
     ];
     let dir_names = ["d1/", "d1/d2/", "d9/", "../dx/"];
     let n = r.urange(1, 8);
